@@ -27,6 +27,8 @@ mod cmapx;
 mod gvar;
 #[path = "c17/hvar.rs"]
 mod hvar;
+#[path = "c17/locax.rs"]
+mod locax;
 
 const F_NO_HINTING: u16 = 0x0001;
 const F_RETAIN_GIDS: u16 = 0x0002;
@@ -886,6 +888,50 @@ fn run_request(s: &mut Session, fc: &FontCtx, req: &Req, tag: &str, deep: bool) 
         let bad: Vec<_> = view.glyph_map.iter().filter(|(o, n)| o != n).take(5).collect();
         s.oracle("retain-gids-identity", bad.is_empty(), || input.clone(), || format!("{bad:?}"));
     }
+    // loca of the subset, read raw: offsets ascend and stay inside glyf; an id that is not a kept glyph (retain-gids
+    // gap) owns no bytes; a kept glyph whose original record has an outline owns some (content: outline-preserved)
+    if let (Ok(l), Some(out_glyf)) = (sub.loca(None), table(&sub, b"glyf")) {
+        let offs: Vec<u32> = (0..=l.len()).filter_map(|i| l.get_raw(i)).collect();
+        let mut bad: Vec<String> = vec![];
+        if offs.len() != l.len() + 1 {
+            bad.push(format!("{} offsets for {} glyphs", offs.len(), l.len()));
+        }
+        for w in offs.windows(2) {
+            if w[0] > w[1] && bad.len() < 4 {
+                bad.push(format!("descending {} > {}", w[0], w[1]));
+            }
+        }
+        if offs.last().map_or(false, |e| *e as usize > out_glyf.len()) {
+            bad.push(format!("last offset {:?} beyond glyf length {}", offs.last(), out_glyf.len()));
+        }
+        let kept_new: BTreeMap<u32, u32> = view.new_to_old_gid_list.iter().copied().collect();
+        let drop_notdef = req.flags & F_NOTDEF_OUTLINE == 0;
+        let (oloca, oglyf) = (font.loca(None), font.glyf());
+        let mut gaps = 0;
+        for g in 0..l.len() as u32 {
+            let (Some(a), Some(b)) = (offs.get(g as usize), offs.get(g as usize + 1)) else { continue };
+            match kept_new.get(&g) {
+                None => {
+                    gaps += 1;
+                    if a != b && bad.len() < 6 {
+                        bad.push(format!("gap id {g} owns bytes {a}..{b}"));
+                    }
+                }
+                Some(old) => {
+                    // simple glyphs only: a composite may legitimately be emptied (closure limits, known finding)
+                    if let (Ok(ol), Ok(og)) = (&oloca, &oglyf) {
+                        let has_outline = matches!(ol.get_glyf(GlyphId::new(*old), og), Ok(Some(Glyph::Simple(_))));
+                        if has_outline && !(g == 0 && *old == 0 && drop_notdef) && a == b && bad.len() < 6 {
+                            bad.push(format!("kept glyph old {old} -> new {g} owns no bytes ({a}..{b})"));
+                        }
+                    }
+                }
+            }
+        }
+        s.count(if gaps == 0 { "loca:gaps=0" } else if gaps < 10 { "loca:gaps=1-9" } else { "loca:gaps=10+" });
+        s.count(&format!("loca:{}:{}", if sub.head().map(|h| h.index_to_loc_format()).unwrap_or(0) == 0 { "short" } else { "long" }, if gaps == 0 { "no-gaps" } else { "gaps" }));
+        s.oracle("loca-ascending-gaps-empty-kept-nonempty", bad.is_empty(), || input.clone(), || bad.join("; "));
+    }
     // character map
     let cmap_kept = sub.cmap().is_ok();
     fc.table_oracle(s, "cmap-table-kept", cmap_kept, &input, "the original has a cmap table, subset_font returned Ok, the subset has none".into());
@@ -1674,6 +1720,7 @@ fn run(cfg: &Config, s: &mut Session) {
     }
 
     // 6. table subsetters beyond the glyph-level core (own RNG streams: independent of the sections above)
+    locax::run(cfg, s, &mut Rng::new(cfg.seed ^ 0x10CA));
     cmapx::run(cfg, s, &mut Rng::new(cfg.seed ^ 0xC3A9));
     hvar::run(cfg, s, &mut Rng::new(cfg.seed ^ 0x48564152));
     gvar::run(cfg, s, &mut Rng::new(cfg.seed ^ 0x67766172));
